@@ -216,6 +216,9 @@ def sideload (tool : String) (extra : Option Quals) (b : Bio) : Bio :=
     let q := if ex.isEmpty then q else Q.update (Q.set q "external_qualifier_ids" (ex.map (·.1))) ex
     { b with quals := q }
 
+/-- `text.startswith("externally annotated")` -/
+def isExternal (text : String) : Bool := "externally annotated".toList.isPrefixOf text.toList
+
 /-- `text.split(": ", 1)[1]` -/
 def afterColonSpace : List Char → Option (List Char)
   | ':' :: ' ' :: rest => some rest
@@ -297,7 +300,7 @@ def protoKeys : List String :=
 /-- `Protocluster.from_biopython` / `SideloadedProtocluster.from_biopython` -/
 def Proto.fromBio (b : Bio) : E Proto := do
   let l0 := b.quals
-  if (Q.first l0 "aStool" "").startsWith "externally annotated" then
+  if isExternal (Q.first l0 "aStool" "") then
     let (tool0, l) ← popReq l0 "aStool" "KeyError"
     let tool ← match afterColonSpace tool0.toList with
       | some t => pure (String.ofList t)
@@ -363,7 +366,7 @@ def Sub.fromBio (b : Bio) : E Sub := do
   | none => throw "value-error"
   | some [] => throw "IndexError"
   | some (tool0 :: _) =>
-    if tool0.startsWith "externally annotated" then
+    if isExternal tool0 then
       let tool ← match afterColonSpace tool0.toList with
         | some t => pure (String.ofList t)
         | none => throw "IndexError"
